@@ -59,7 +59,7 @@ CHECK_TEXT.update({
     "C20": _e("The editor's semantic analysis, built from the definitions the engine publishes, gates generated methods; accepted ones are executed with trajectories that drive all conditions; no run-time failure by unknown name, rejected argument or incompatible units. Weakest fit of the family (programs x configurations); no faults involved.", "DESIGN.md 4.C20",
               "deterministic simulation as executor behind the analyzer gate (virtual time makes every accepted line reachable)"),
     "C36": _e("Reports drained through the real message builder after drawn numbers of ticks: every tag whose reported value differs since the previous report is present with its current value; no duplicates; snapshot complete.", "DESIGN.md 4.C36"),
-    "C39": _e("Archiver on an in-memory file system with short data-log intervals and Mark texts containing separators, quotes and escape characters: every row read back with the archiver's dialect equals the row handed to the writer and has the header's columns.", "DESIGN.md 4.C39"),
+    "C39": _e("Archiver on an in-memory file system with short data-log intervals and Mark texts containing separators, quotes and escape characters: every row read back with the archiver's dialect equals the row handed to the writer, carries exactly the values the tags' archive() returned, and has the header's columns.", "DESIGN.md 4.C39"),
     "C41": _e("Macro-heavy methods: per completed call the body tokens of the latest executed definition appear once; RecursionError never escapes a tick.", "DESIGN.md 4.C41"),
     "C27": {"technique": "deterministic simulation: real EngineRunner on a virtual-time asyncio loop over a faulty simulated link; produce/attempt/deliver history checked at quiescence",
             "design_ref": "DESIGN.md 3 SIM-R, 4.C27",
